@@ -16,7 +16,7 @@ enum {
 	OP_NONE, OP_REG, OP_UNREG, OP_SETH, OP_POST, OP_QUIT, OP_CONSUME, OP_PRODUCE,
 	OP_CLOSE, OP_SHUTDOWN, OP_WORK, OP_INVAL, OP_SLEEP, OP_COOKIE, OP_RAISE,
 	OP_TKILL, OP_SUBMIT, OP_PUT, OP_SPAWN, OP_WKILL, OP_FSOP, OP_PCLOSE,
-	OP_BULK, OP_BURST, OP_YIELD, OP_MAX
+	OP_BULK, OP_BURST, OP_YIELD, OP_RFORK, OP_MAX
 };
 
 enum { CTX_SETUP = 'S', CTX_CB = 'C', CTX_DRV = 'D' };
